@@ -310,6 +310,22 @@ class World:
         os.makedirs(self.root)
         build_tree(self.root, spec.get("tree", []))
         build_tree(self.parent, spec.get("outside", []))
+        # files planted at paths (relative to the top of the world) that an earlier run saw the server look at
+        for rel, data in spec.get("plant", []):
+            pth = os.path.normpath(os.path.join(self.tmp, rel))
+            if not pth.startswith(self.tmp + os.sep) or pth == self.root or pth.startswith(self.root + os.sep) or os.path.lexists(pth):
+                continue
+            try:
+                os.makedirs(os.path.dirname(pth), exist_ok=True)
+                with open(pth, "wb") as f:
+                    f.write(s2b(data))
+            except OSError:
+                pass
+        self.systmp = None
+        if spec.get("tmpdir"):
+            # the system's temporary directory is a place outside the root like any other
+            self.systmp = os.path.join(self.tmp, "systmp")
+            os.makedirs(self.systmp, exist_ok=True)
         self.spec = spec
         global SERVER_PORT
         SERVER_PORT = int(spec.get("server_port", 70))
@@ -335,7 +351,11 @@ class World:
 def op_world(job):
     w = World(job)
     cwd0 = os.getcwd()
+    tmp0, env0 = tempfile.tempdir, os.environ.get("TMPDIR")
     try:
+        if w.systmp:
+            tempfile.tempdir = w.systmp
+            os.environ["TMPDIR"] = w.systmp
         if job.get("cwd") == "root":
             os.chdir(w.root)
         elif job.get("cwd") == "tmp":
@@ -364,6 +384,11 @@ def op_world(job):
         return {"root": w.root, "parent": w.parent, "results": res}
     finally:
         os.chdir(cwd0)
+        tempfile.tempdir = tmp0
+        if env0 is None:
+            os.environ.pop("TMPDIR", None)
+        else:
+            os.environ["TMPDIR"] = env0
         w.close()
 
 
